@@ -203,9 +203,13 @@ type Command struct {
 // TrimSpace removes all leading and trailing white space removed, as defined by Unicode.
 func (c *Command) TrimSpace() {
 	c.Name = strings.TrimSpace(c.Name)
+	// the match slice is shared by every request of the user (the authorizer works on copies of the
+	// Command struct, not of its backing array): trim into a fresh slice instead of writing in place
+	match := make([]string, len(c.Match))
 	for i, m := range c.Match {
-		c.Match[i] = strings.TrimSpace(m)
+		match[i] = strings.TrimSpace(m)
 	}
+	c.Match = match
 }
 
 // Authenticator represents the authenticator backend that is responsible for password validation.
